@@ -927,7 +927,7 @@ TIERS = {
         "jobs": [("flat3", "CLayout_mc.cfg", 1, None, None), ("flat2", "CLayout_mc2.cfg", 1, None, None),
                  ("nest", "CLayout_nest.cfg", 1, None, None), ("ld", "CLayout_ld.cfg", 1, None, None), ("anon", "CLayout_anon.cfg", 1, None, None), ("edge", "CLayout_edge.cfg", 1, None, None),
                  ("sim", "CLayout_sim.cfg", 1, 1500, 60)],
-        "layout_engines": ["-ei"], "bv_engines": ["-ei", "-eg -O2"], "per_group": 2, "mem_sizes": 10, "per_mem": 1,
+        "layout_engines": ["-ei"], "bv_engines": ["-ei", "-eg -O2"], "per_group": 1, "mem_sizes": 10, "per_mem": 1,
         "probe": 3000, "static": 2000, "tlc_par": 3,
     },
     "thorough": {
